@@ -7,8 +7,10 @@ open Genshi Genshi.Heap Genshi.Sexp
 /-! wire format (see harness/props/c10.py `wire_*`):
   val    N | T | F | <int> | s<hex> | ( L atom* ) | ( F s<tag> )
   expr   ( v s<name> ) | ( l val ) | ( eq e e ) | ( not e ) | ( call s<f> ) | ( call s<f> e )
+         | ( fmt1 s<s0> e s<s1> ) | ( fmt2 s<s0> e s<s1> e s<s2> ) | ( gen body s<x> src ) | ( lam s<x> body )
   ref    ( t n ) | ( p n )
   ev     ( O <event> ) | ( X expr ) | ( S ref ref ) | ( I t|N ref|N ) | U
+         | ( G s<name> s<x> src body )     EXEC: `def name():` / `for x in src:` / `yield body`
          | ( A qname ( ( qname s<plain> ) | ( qname ref ) )* )      START with interpolated attribute values
   aspec  ( D ( s<key> expr )* ) | ( P ( s<key> expr )* ) | ( X expr )     the expression of py:attrs
   dir    ( id kind args* )
@@ -39,6 +41,11 @@ partial def expr? : Sexp → Option Expr
   | .list [.atom "call", .str f, a] => do let a ← expr? a; pure (.call1 f a)
   | .list [.atom "eq", a, b] => do let a ← expr? a; let b ← expr? b; pure (.eq a b)
   | .list [.atom "not", a] => do let a ← expr? a; pure (.not a)
+  | .list [.atom "fmt1", .str s0, a, .str s1] => do let a ← expr? a; pure (.fmt1 s0 a s1)
+  | .list [.atom "fmt2", .str s0, a, .str s1, b, .str s2] => do
+      let a ← expr? a; let b ← expr? b; pure (.fmt2 s0 a s1 b s2)
+  | .list [.atom "gen", body, .str x, src] => do let body ← expr? body; let src ← expr? src; pure (.genexp body x src)
+  | .list [.atom "lam", .str x, body] => do let body ← expr? body; pure (.lam x body)
   | _ => none
 
 def optExpr? : Sexp → Option (Option Expr)
@@ -73,6 +80,8 @@ def tev? : Sexp → Option TEv
   | .list [.atom "X", e] => (expr? e).map .expr
   | .list [.atom "S", d, b] => do let d ← ref? d; let b ← ref? b; pure (.sub d b)
   | .atom "U" => some .other
+  | .list [.atom "G", .str name, .str x, src, body] => do
+      let src ← expr? src; let body ← expr? body; pure (.execGen name x src body)
   | .list [.atom "I", t, fb] => do
       let t : Option Nat ← (match t with | .atom "N" => some none | x => x.toNat?.map some)
       let fb : Option Ref ← (match fb with | .atom "N" => some none | x => (ref? x).map some)
@@ -145,6 +154,18 @@ def valOut : Val → Sexp
   | .macro m => .list [.atom "F", .str m.name]
   | .gen0 _ => .atom "G"
   | .gen1 _ _ => .atom "G"
+  | .genx _ _ _ => .atom "Z"
+  | .genf _ _ _ => .atom "Z"
+  | .genfn _ _ _ _ => .atom "Z"
+  | .lam _ _ => .atom "Z"
+
+/-- a value under its key in a frame: the harness shows a function there as `( F key )` (`wire_val(v, key)`),
+    anywhere else (choice stack) as `Z` -/
+def valOutK (k : Str) : Val → Sexp
+  | .lam _ _ => .list [.atom "F", .str k]
+  | .genfn _ _ _ _ => .list [.atom "F", .str k]
+  | .macro _ => .list [.atom "F", .str k]
+  | v => valOut v
 
 def errName : Err → String
   | .undefined => "UndefinedError"
@@ -163,7 +184,7 @@ def stepOut : StepOut → Sexp
   | .stopped => .atom "halted"
 
 def ctxOut (c : Ctx) : Sexp :=
-  .list [ .list (c.frames.map fun f => .list (f.map fun (k, v) => .list [.str k, valOut v])),
+  .list [ .list (c.frames.map fun f => .list (f.map fun (k, v) => .list [.str k, valOutK k v])),
           .list (c.choice.map fun ch =>
             .list [ofBool ch.matched, ofBool ch.hasTest,
                    match ch.value with | some v => valOut v | none => .atom "N"]),
@@ -201,7 +222,40 @@ def runAll (v : Variant) (fuel : Nat) : World → List Act → List Sexp
     let (w1, o) := exec v fuel w a
     obsOut w w1 o :: runAll v fuel w1 as
 
+/-- does the iterator tree hold a suspended lazily evaluated scope (the generator object of a generator
+    expression with items left)? -/
+partial def lazyIn : It → Bool
+  | .genexp _ (_ :: _) _ => true
+  | .genfNew _ _ _ => true
+  | .forNextG _ _ (_ :: _) _ _ _ _ => true
+  | .forRunG _ _ xs _ _ _ _ inner => !xs.isEmpty || lazyIn inner
+  | .forRun _ _ _ _ _ inner => lazyIn inner
+  | .popAfter inner => lazyIn inner
+  | .chooseRun inner => lazyIn inner
+  | .forNew _ _ src _ | .withNew _ src _ | .chooseNew _ src _ | .pushNew _ src _ | .stripNew _ src
+  | .stripRun _ src | .attrsNew _ src => lazyIn src
+  | _ => false
+
+/-- per action: after it, is render `i` (the one stepped) suspended inside a lazily evaluated scope with items
+    left — the situation in which other renders' evaluations come between two runs of one body -/
+def runLazy (v : Variant) (fuel : Nat) : World → List Act → List Sexp
+  | _, [] => []
+  | w, a :: as =>
+    let (w1, _) := exec v fuel w a
+    let flag : Bool := match a with
+      | .step i => (match w1.renders[i]? with
+                    | some r => r.live && r.frames.any (fun f => f.stack.any lazyIn)
+                    | none => false)
+      | _ => false
+    ofBool flag :: runLazy v fuel w1 as
+
 def handle : List Sexp → Option Sexp
+  | [.atom "runlazy", cc, xc, tr, fuel, .list roots, .list cells, .list acts] => do
+      let cc ← cc.toBool?; let xc ← xc.toBool?; let tr ← tr.toBool?; let fuel ← fuel.toNat?
+      let roots ← roots.mapM Sexp.toNat?
+      let image ← cells.mapM cell?
+      let acts ← acts.mapM act?
+      pure (.list (runLazy ⟨cc, xc⟩ fuel (World.init image roots tr) acts))
   | [.atom "run", cc, xc, tr, fuel, .list roots, .list cells, .list acts] => do
       let cc ← cc.toBool?; let xc ← xc.toBool?; let tr ← tr.toBool?; let fuel ← fuel.toNat?
       let roots ← roots.mapM Sexp.toNat?
